@@ -381,7 +381,12 @@ def analyse(ctx):
             st = agg_get(resp, "status")
             r.status = 200 if st == ("default_status",) else (st[1] if is_const(st) else st)
             hd = agg_get(resp, "headers")
-            r.headers = [(hdr_name(h[0]), h[1], h[2]) for h in hd[1]] if isinstance(hd, tuple) and hd[0] == "hdrs" else None
+            if not (isinstance(hd, tuple) and hd and hd[0] == "hdrs"):
+                r.ok = False
+                r.why = "the response's header map is modified in a way the model does not follow (not Builder::header / insert / append / the entity's add_headers): %s" % short(hd, 160)
+                rows.append(r)
+                continue
+            r.headers = [(hdr_name(h[0]), h[1], h[2]) for h in hd[1]]
             r.body = body_kind(agg_get(resp, "body"))
         elif is_multi:
             def leaf(pred):
@@ -1212,6 +1217,78 @@ def c04_exit_order(ctx, M):
             ctx.violation("C04.R6", "C04.R6|spurious-%s" % r.status, "status %s although neither decision demands it" % r.status, where=row_where(r))
     ctx.ok("C04.R6", "412 before 304 before range handling", detail={"rows_412": n412, "rows_304": n304, "rows_400": n400})
     ctx.floor("C04.R6", min(n412, n304, n400), 1, what="412 / 304 / 400 rows")
+
+
+def _arg_text(r, e, i):
+    """text of call argument i together with what the locals it refers to hold on this path"""
+    x = e["args"][i]
+    s_ = fmt_term(x) + " " + (fmt_term(e["snap"][i]) if e.get("snap") and len(e["snap"]) > i and e["snap"][i] is not None else "")
+    stack, seen_ = [x, e["snap"][i] if e.get("snap") and len(e["snap"]) > i else None], 0
+    while stack and seen_ < 200:
+        y = stack.pop()
+        seen_ += 1
+        if isinstance(y, tuple) and y:
+            if y[0] == "ref" and len(y) > 2 and isinstance(y[1], tuple) and y[1] and y[1][0] == "L":
+                v_ = r.o.state.env.get(y[1])
+                if v_ is not None:
+                    s_ += " " + fmt_term(v_)
+            else:
+                stack.extend(z for z in y if isinstance(z, tuple))
+    return s_
+
+
+def c04_call_args(ctx, M):
+    """C04.R7: the precondition evaluation is given the entity's own validators and the request's own headers - the
+    modification time is the value `Entity::last_modified` returned (not a clamped, rounded or otherwise derived time: the
+    conditions speak about the second the entity was last modified in), the tag is what `Entity::etag` returned, the
+    header map is the request's"""
+    def strip(t):
+        while isinstance(t, tuple) and t and t[0] in ("&", "deref", "copy", "move") and len(t) == 2:
+            t = t[1]
+        return t
+    n = 0
+    seen = set()
+    for r in ok_rows(M):
+        e = cond_fn_event(ctx, r)
+        if e is None:
+            continue
+        b = ctx.facts.bodies.get(e["callee"].get("res_path"))
+        if b is None:
+            continue
+        for i, a in enumerate(e["args"]):
+            ty = b["locals"][i + 1]["s"]
+            v = a
+            if isinstance(v, tuple) and v and v[0] == "ref" and e.get("snap") and len(e["snap"]) > i and e["snap"][i] is not None:
+                v = e["snap"][i]
+            v = strip(v)
+            f = _arg_text(r, e, i)
+            bad = None
+            if "SystemTime" in ty:
+                lm = [x.get("result") for x in r.o.events if x["k"] == "call" and (x["callee"].get("path") or "").endswith("Entity::last_modified")]
+                same = isinstance(v, tuple) and v and v[0] == "call" and v[1].endswith("Entity::last_modified")
+                if is_agg(v) and v[3] == "None":
+                    same = any(r.o.cons.variant_of(x) == "None" for x in lm)
+                elif is_agg(v) and v[3] == "Some":
+                    same = any(strip(agg_get(v, "0")) == ("payload", x, "Some", "0") for x in lm)
+                if not same:
+                    bad = ("mtime", "the modification time handed to the precondition evaluation is not the value the entity's last_modified() returned "
+                           "but %s: If-Modified-Since / If-Unmodified-Since would be judged against a different time" % short(v, 140))
+            elif "HeaderMap" in ty:
+                if not (isinstance(v, tuple) and v and v[0] == "param"):
+                    bad = ("headers", "the header map handed to the precondition evaluation is not the request's: %s" % short(v, 100))
+            elif "HeaderValue" in ty or ty == "std::option::Option<&[u8]>":
+                et = [x.get("result") for x in r.o.events if x["k"] == "call" and (x["callee"].get("path") or "").endswith("Entity::etag")]
+                if is_agg(v) and v[3] == "None" and any(r.o.cons.variant_of(x) == "None" for x in et):
+                    pass            # the entity has no tag on this path, and none is handed over
+                elif "Entity::etag" not in f and "etag(" not in f or "last_modified" in f or "::now" in f or "IF_" in f:
+                    bad = ("etag", "the tag handed to the precondition evaluation is not what the entity's etag() returned: %s" % short(v, 100))
+            if bad and bad[0] not in seen:
+                seen.add(bad[0])
+                ctx.violation("C04.R7", "C04.R7|%s" % bad[0], bad[1], where=where(e))
+        n += 1
+    if not seen:
+        ctx.ok("C04.R7", "the precondition evaluation receives the entity's own etag() / last_modified() and the request's headers", detail={"rows": n})
+    ctx.floor("C04.R7", n, 1, what="rows that call the precondition evaluation")
 
 
 # ------------------------------------------------------------------ C05 If-Range gate
